@@ -14,6 +14,7 @@ import (
 	"fmt"
 	"os"
 	"sort"
+	"strings"
 	"sync"
 	"sync/atomic"
 	"time"
@@ -71,14 +72,21 @@ type pair struct {
 	ms      *mesh.Mesh
 	flights map[string]*world.Flight // model message key -> real frame in flight
 	steps   []string
+	// dirs: which directions the observations of this pair try (0 both, 1 A->B only, 2 B->A only). Observing costs
+	// sequence numbers: a router that is only ever observed as a receiver has never sent anything under its keys,
+	// which is a state of its own (one-way flows) that two-way observations would never leave alone.
+	dirs int
 }
+
+var pairSeq int
 
 func newPair() *pair {
 	ms, err := mesh.New(2, []mesh.Edge{{A: 1, B: 2, LA: 11, LB: 12}}, mesh.Opts{})
 	if err != nil {
 		panic(err)
 	}
-	return &pair{ms: ms, flights: map[string]*world.Flight{}}
+	pairSeq++
+	return &pair{ms: ms, flights: map[string]*world.Flight{}, dirs: pairSeq % 3}
 }
 
 func (p *pair) node(x string) *world.Node {
@@ -158,6 +166,12 @@ func (p *pair) exec(c *vf.Ctx, a act, created *mmsg) bool {
 		x := p.node(a.At)
 		p.steps = append(p.steps, "start "+a.At)
 		if _, err := x.Rt.HelloPing.Send(p.node(peerOf(a.At)).ID.IP); err != nil {
+			return false
+		}
+	case "forget":
+		// the router loses its keys with the peer on its own (restart, idle session cleaned up)
+		p.steps = append(p.steps, "forget "+a.At)
+		if err := p.node(a.At).St.SetEncryptionSession(p.node(peerOf(a.At)).ID.IP, nil); err != nil {
 			return false
 		}
 	case "expire":
@@ -268,7 +282,15 @@ func (p *pair) observe() obs {
 		return ys != nil && g.Unseal(ys) == nil
 	}
 	if o.ASet && o.BSet {
-		o.A2B, o.B2A = try(a, b), try(b, a)
+		o.A2B, o.B2A = true, true // a direction that is not tried is not judged
+		for k := 0; k < 3; k++ {  // a short flow, not a single frame: what the receiver remembers of earlier traffic matters
+			if p.dirs != 2 {
+				o.A2B = try(a, b) && o.A2B
+			}
+			if p.dirs != 1 {
+				o.B2A = try(b, a) && o.B2A
+			}
+		}
 	}
 	return o
 }
@@ -439,6 +461,9 @@ func run(c *vf.Ctx) {
 			}
 			if quiet {
 				o := pr.observe()
+				if os.Getenv("VERIF_C14_DEBUG") != "" && strings.Contains(strings.Join(pr.steps, ";"), "forget") {
+					fmt.Printf("DBG dirs=%d obs=%+v steps=%v\n", pr.dirs, o, pr.steps)
+				}
 				roles := ms.roles
 				events = append(events, map[string]any{"ev": "quiet", "aset": o.ASet, "bset": o.BSet, "a2b": o.A2B, "b2a": o.B2A, "class": roles})
 				if o.ASet && o.BSet && !(o.A2B && o.B2A) {
@@ -529,6 +554,53 @@ func run(c *vf.Ctx) {
 		}
 		c.Distinct("concurrent-start")
 		c.Stage("R-concurrent-start", map[string]any{"rounds": rounds, "rounds_with_two_exchanges": twoStarted})
+	}
+	// ---- re-keying: a router forgets its keys and sets up again with a peer that still holds the old ones; every
+	// observation is a short flow in one or both directions, so that the second set-up meets routers that have only
+	// sent, only received, or both under the old keys
+	{
+		df, err := c.TLC("KeySetup", "KeySetup_DumpForget.cfg", vf.TLCOpts{Workers: 1, Timeout: 20 * time.Minute, Heap: "8g"})
+		if err != nil {
+			c.Fatal("M forget: %v", err)
+		}
+		c.AddModel(df.Distinct, df.Generated)
+		if len(df.Edges) == 0 {
+			c.Fatal("M forget: no edges")
+		}
+		df.Inits = []string{df.Edges[0].From}
+		gf := vf.BuildGraph(df)
+		fpaths := gf.CoverPaths(0)
+		ftotal := len(fpaths)
+		// paths that contain a forget step first
+		sort.SliceStable(fpaths, func(i, j int) bool {
+			has := func(p []int) bool {
+				for _, ei := range p {
+					if strings.Contains(string(gf.Edges[ei].Act), "forget") {
+						return true
+					}
+				}
+				return false
+			}
+			return has(fpaths[i]) && !has(fpaths[j])
+		})
+		if lim := c.Pick(240, 100000); len(fpaths) > lim {
+			fpaths = fpaths[:lim]
+		}
+		for pi, p := range fpaths {
+			var steps []mstep
+			for _, ei := range p {
+				e := gf.Edges[ei]
+				var st step
+				_ = json.Unmarshal(e.Act, &st)
+				roles, _ := rolesOf(e.To)
+				steps = append(steps, mstep{a: st.A, before: netOf(e.From), after: netOf(e.To), roles: roles, bad: st.Bad})
+			}
+			for d := 0; d < 3; d++ { // three pairs in a row: observation directions both / A->B / B->A
+				replaySteps(steps, fmt.Sprintf("rekey-%d/%d", pi, d))
+			}
+			c.Distinct(fmt.Sprintf("rekey|%v", p))
+		}
+		c.Stage("R-rekey", map[string]any{"distinct": df.Distinct, "edges": len(gf.Edges), "cover_paths": ftotal, "executed": len(fpaths), "observation_directions": 3})
 	}
 	paths := g.CoverPaths(0)
 	total := len(paths)
